@@ -9,11 +9,41 @@ from translator import t1_operators
 ID = 'C18'
 TRANSLATORS = [t1_operators.translate]
 PROPERTY_FILE = 'Properties/C18.v'
-THEOREMS = []
+THEOREMS = ['C18_apply_is_sequencing', 'C18_reduce_generic', 'C18_sequencing_append', 'C18_linearize_flattens',
+            'C18_linearize_app', 'C18_composition_is_its_list', 'C18_list_is_sequencing',
+            'C18_append_is_sequencing', 'C18_pipe_is_sequencing', 'C18_cleanup_is_sequencing',
+            'C18_cleanup_is_transforms', 'C18_outs_ok_of_WF', 'C18_pipeline_keeps_outs_ok',
+            'C18_sequencing_needs_outs_ok',
+            'C18_rr_effect', 'C18_rr_idempotent', 'C18_rr_total', 'C18_example_wf', 'C18_example_rr',
+            'C18_md_effect', 'C18_sig_eqb_spec', 'C18_md_effect_before_rr', 'C18_example_md',
+            'C18_mu_no_double_negation', 'C18_mu_no_buffer_reference', 'C18_mu_needs_arity',
+            'C18_example_mu', 'C18_example_mu_iff',
+            'C18_me_effect', 'C18_gates_truth_table_spec', 'C18_example_me']
 PARTIAL = {}
-LEVEL_TEXT = 'pending'
-LEVEL_NOTE = 'pending'
-TECHNIQUE = 'pending'
+LEVEL_TEXT = ('every clause of the property is a Coq theorem about the executable model of the four passes and of the '
+              'Transformer pipeline (Model/Passes.v): RemoveRedundantGates returns exactly the gates reachable from the '
+              'outputs, unchanged, plus the remaining inputs unless removal is allowed, never fails on a well-formed '
+              'circuit and is idempotent on complete states (gate-map order, users index, inputs, outputs); after '
+              'MergeDuplicateGates+RR no two distinct non-INPUT gates have equal type and operands (up to permutation '
+              'for symmetric types); after MergeEquivalentGates+RR no two distinct non-INPUT gates have equal truth '
+              'tables as computed by get_gates_truth_table on the result; after MergeUnaryOperators+RR a circuit whose '
+              'unary gates are all NOT has no NOT of a NOT and a circuit without NOT-like gates has no IFF-like gate as '
+              'operand or output; apply_transformers (linearisation with implied post passes, reduction of repeated '
+              'idempotent passes), nested compositions, lists, the pipe operator and cleanup all equal the sequential '
+              'application of the leaf passes. The model is hand-written and tied to /repo on every run by comparing '
+              'the complete output circuit of every pass and of random pipelines on generated circuits')
+LEVEL_NOTE = ('Coq kernel + vm_compute; hand-written model of the passes/pipeline and of traversal/evaluation (shared with '
+              'C01/C03/C20); correspondence harness. Hypotheses: WF c (the C02 invariant) for RR effect/totality, ME and MU; '
+              'MD needs none; RR idempotence and all pipeline equations need only that the outputs of the initial circuit '
+              'name gates (a clause of WF, re-established by every pass) - without it [RR; RR] differs from RR RR in '
+              'gate-map order (Example C18_sequencing_needs_outs_ok); the no-double-negation clause needs arity_ok (a '
+              'two-operand NOT keeps a NOT operand, Example C18_mu_needs_arity). INPUT gates are excluded from the '
+              'duplicate / equivalence clauses (all inputs share the signature (INPUT,)); truth tables are those '
+              'recomputed on the result, proved equal to the semantic values (Sem.Eval) of the surviving gates')
+TECHNIQUE = ('Coq proof: list algebra over an abstract leaf semantics for the pipeline; determinism of the DFS step '
+             'relation + transport of a run between circuits agreeing on a closed label set (RR idempotence); loop '
+             'invariants over the rebuild folds (canonical-representative invariants for MD/ME, parity maps for MU); '
+             'per-gate semantic preservation for ME; exact output-circuit correspondence with the implementation')
 TRUSTED = []
 ASSUMPTIONS = []
 
